@@ -127,6 +127,8 @@ type Options struct {
 	// ExactlyOnceMax set to this (a misconfigured restart), then with Config.
 	// Warnings of both invocations are kept; PreAdoptFatal has the first outcome.
 	PreAdoptLimits int
+	// AdoptFailNth: the operations of AdoptFailNext fail at their n-th occurrence instead of the first
+	AdoptFailNth int
 	// PreAdoptFailLoad: AdoptSession is first invoked with the n-th Load
 	// failing (a transient error of the Persistence), then as usual. A client
 	// it may return is closed at once. Warnings of both invocations are kept.
@@ -313,6 +315,10 @@ func New(t TB, o Options) *World {
 	mqtt.VerifSetYield(w.yield)
 	if o.Adopt {
 		for _, kind := range o.AdoptFailNext {
+			if o.AdoptFailNth > 1 {
+				w.Store.FailNth(kind, o.AdoptFailNth)
+				continue
+			}
 			w.Store.FailNext(kind)
 		}
 		var preWarn []error
